@@ -377,3 +377,83 @@ pub proof fn vx_lemma_elem_map<A>(s: Seq<A>, dig: spec_fn(A) -> int, b: int, p: 
     assert(vx_filt(one, dig, d) =~= seq![s[p]]);
     assert(vx_pref(s, dig, b).subrange(lo, lo + 1)[0] == s[p]);
 }
+
+// ---- counting by an arbitrary predicate (vx_rank / vx_rankd are instances) ----
+pub open spec fn vx_pcount<A>(s: Seq<A>, pr: spec_fn(A) -> bool, i: int) -> int { s.take(i).filter(pr).len() as int }
+
+pub proof fn vx_lemma_pcount_step<A>(s: Seq<A>, pr: spec_fn(A) -> bool, i: int)
+    requires 0 <= i < s.len()
+    ensures vx_pcount(s, pr, i + 1) == vx_pcount(s, pr, i) + (if pr(s[i]) { 1int } else { 0int })
+{
+    assert(s.take(i + 1) == s.take(i).push(s[i]));
+    vx_lemma_filter_push(s.take(i), pr, s[i]);
+}
+
+pub proof fn vx_lemma_pcount_mono<A>(s: Seq<A>, pr: spec_fn(A) -> bool, i: int, j: int)
+    requires 0 <= i <= j <= s.len()
+    ensures vx_pcount(s, pr, i) <= vx_pcount(s, pr, j), vx_pcount(s, pr, j) - vx_pcount(s, pr, i) <= j - i
+    decreases j - i
+{
+    if i < j {
+        vx_lemma_pcount_mono(s, pr, i, j - 1);
+        vx_lemma_pcount_step(s, pr, j - 1);
+    }
+}
+
+/// number of pr-elements inside the block [b,e)
+pub proof fn vx_lemma_block_count<A>(lv: Seq<A>, pr: spec_fn(A) -> bool, b: int, e: int)
+    requires 0 <= b <= e <= lv.len()
+    ensures lv.subrange(b, e).filter(pr).len() == vx_pcount(lv, pr, e) - vx_pcount(lv, pr, b)
+{
+    vx_lemma_filter_split(lv.take(e), pr, b);
+    assert(lv.take(e).take(b) == lv.take(b));
+    assert(lv.take(e).skip(b) == lv.subrange(b, e));
+}
+
+/// One upward step of a wavelet-matrix select.  lv is a level, [b,e) the block of the elements
+/// that share the symbol's prefix, d the symbol's digit at this level, q the position of the
+/// (rank_d(b) + rp + 1)-th element of lv with digit d.  f = the d-bucket of the block (the block of
+/// the next level).
+pub proof fn vx_lemma_select_up<A>(lv: Seq<A>, dig: spec_fn(A) -> int, d: int, b: int, e: int, c: A, rp: int, q: int)
+    requires 0 <= b <= e <= lv.len(), dig(c) == d, 0 <= rp,
+             0 <= q < lv.len(), dig(lv[q]) == d,
+             vx_rankd(lv, dig, d, q) == vx_rankd(lv, dig, d, b) + rp,
+    ensures ({
+        let g = lv.subrange(b, e);
+        let f = vx_filt(g, dig, d);
+        b <= q
+        && (rp < f.len() ==> q < e && g[q - b] == f[rp] && vx_rank(g, c, q - b) == vx_rank(f, c, rp))
+        && (rp >= f.len() ==> q - b >= g.len())
+    })
+{
+    let pr = vx_digeq(dig, d);
+    let g = lv.subrange(b, e);
+    let f = vx_filt(g, dig, d);
+    assert(vx_rankd(lv, dig, d, q) == vx_pcount(lv, pr, q));
+    assert(vx_rankd(lv, dig, d, b) == vx_pcount(lv, pr, b));
+    vx_lemma_pcount_step(lv, pr, q);
+    if q < b {
+        vx_lemma_pcount_mono(lv, pr, q + 1, b);
+        assert(false);
+    }
+    vx_lemma_block_count(lv, pr, b, e);
+    if rp < f.len() {
+        if q >= e { vx_lemma_pcount_mono(lv, pr, e, q); assert(false); }
+        let r = q - b;
+        assert(g[r] == lv[q]);
+        vx_lemma_block_count(lv, pr, b, q);
+        assert(g.take(r) == lv.subrange(b, q));
+        vx_lemma_filter_split(g, pr, r);
+        vx_lemma_filter_first(g.skip(r), pr);
+        let h = g.take(r).filter(pr);
+        assert(h.len() == rp);
+        assert(f == h + g.skip(r).filter(pr));
+        assert(f[rp] == g[r]);
+        // ranks
+        assert(f.take(rp) =~= h);
+        assert forall|x: A| #[trigger] vx_eqv(c)(x) == (pr(x) && vx_eqv(c)(x)) by {}
+        vx_lemma_filter_fuse(g.take(r), pr, vx_eqv(c), vx_eqv(c));
+    } else {
+        if q < e { vx_lemma_pcount_mono(lv, pr, q + 1, e); assert(false); }
+    }
+}
